@@ -202,13 +202,12 @@ theorem C01_verdict (env : Env) (t : Tables) (accept : Val → Option Val) (fuel
 
 /-- with `update=True` missing required fields are not reported: the errors are
     exactly those of the per-field loop -/
-theorem C01_required_update (env : Env) (t : Tables) (rec : Rec) (ctx : Ctx) (schema : Val)
-    (dkvs skvs : List (Key × Val)) (pre : List Err) (u : List Key) (errs : List Err)
-    (hs : env.resolveSchema schema = some (.dict skvs))
-    (h : validateMapping env t rec ctx schema (.dict dkvs) true pre u = .ok errs) :
-    ∃ s, validateFields env t rec ctx schema skvs (.dict dkvs) true dkvs { errs := pre, unreq := u } = .ok s
+theorem C01_required_update (env : Env) (t : Tables) (rec : Rec) (ctx : Ctx)
+    (dkvs skvs : List (Key × Val)) (doc : Val) (pre : List Err) (u : List Key) (errs : List Err)
+    (h : validateResolved env t rec ctx skvs doc dkvs true pre u = .ok errs) :
+    ∃ s, validateFields env t rec ctx (.dict skvs) skvs doc true dkvs { errs := pre, unreq := u } = .ok s
       ∧ errs = s.errs := by
-  simp only [validateMapping, hs] at h
+  simp only [validateResolved] at h
   split at h
   · simp at h
   · rename_i s hs'
